@@ -6,6 +6,7 @@ INVARIANTS
   NeverInClear
   NoClearCache
   FormOnlyToPost
+  Coherent
   Emit
 PROPERTIES
   FailedCallIsNoop
